@@ -212,6 +212,15 @@ theorem C20_filtered_flow_counts :
     perfLines ⟨1, 1⟩ [1] (some 1) [d 100 100 50 1] = [(1, some (-1/3))] := by
   decide +kernel
 
+/-- two commodities worth 1 and 3: weights 1/4 and 3/4 -/
+example : (queryDay [] [] 5 [("A", 1), ("B", 3)]).map (·.1.map (·.weight)) = some [1/4, 3/4] := by decide +kernel
+
+def adds0 : List Add := [⟨["Eq", "A"], 5, 1/4⟩, ⟨["Eq", "B"], 5, 1/4⟩, ⟨["Cash", "C"], 5, 1/2⟩]
+
+/-- a small report: the group `Eq` weighs 1/2 = 1/4 + 1/4; top level `Eq`, `Cash`; nothing on the root, no leaf-and-group node -/
+example : wsum adds0 ["Eq"] 5 = 1/2 ∧ childSegs adds0 [] = ["Eq", "Cash"] ∧ rooted adds0 = true ∧ prefixFree adds0 = true := by
+  decide +kernel
+
 /-- what the loader builds is `Plain` -/
 example : Plain (Transaction.ofBookings 3 "deposit" none [⟨⟨["Equity", "E"]⟩, ⟨["Assets", "A"]⟩, 5, "CHF"⟩]) :=
   plain_ofBookings _ _ _
